@@ -223,9 +223,10 @@ pub fn check_pair<F: Real>(pc: &PairCase, exact_int: bool, tol: f64, st: &mut Pi
     bump(st, format!("{:?}{}{} same_operand={} -> rc={} cuts=({},{}) queued={} types=({},{})", rel, if sub.is_empty() { "" } else { ":" }, sub, same_op, o.rc, o.a.cuts.len(), o.b.cuts.len(), o.queued, o.a.edge_type, o.b.edge_type));
     let untouched = |o: &Outcome| o.a.cuts.is_empty() && o.b.cuts.is_empty() && o.queued == 0 && o.a.edge_type == "Normal" && o.b.edge_type == "Normal";
     let viol = |m: String| PiVerdict::Violation(format!("{} [relation {:?}{} same_operand={} rc={} outcome={:?}]", m, rel, sub, same_op, o.rc, o));
-    // argument order independence (roles of typing may swap)
-    if o.rc != o_sw.rc || o.a.cuts != o_sw.a.cuts || o.b.cuts != o_sw.b.cuts || o.queued != o_sw.queued {
-        // an N2 bump may hit a different segment... it cannot: it depends on the segment, not on the order
+    // argument order independence (roles of typing may swap; a computed crossing point may differ by rounding,
+    // because it is evaluated along whichever segment is given first)
+    let close = |x: &Vec<Pt>, y: &Vec<Pt>| x.len() == y.len() && x.iter().zip(y.iter()).all(|(p, q)| if rel == Rel::Cross { (p.0 - q.0).abs() <= tol && (p.1 - q.1).abs() <= tol } else { p == q });
+    if o.rc != o_sw.rc || !close(&o.a.cuts, &o_sw.a.cuts) || !close(&o.b.cuts, &o_sw.b.cuts) || o.queued != o_sw.queued {
         return viol(format!("outcome depends on the argument order: swapped gives {:?}", o_sw));
     }
     match rel {
@@ -435,6 +436,13 @@ pub fn gen_int_pair(rng: &mut Rng) -> PairCase {
         b1.1 += 1;
     }
     let f = |p: (i64, i64)| (p.0 as f64, p.1 as f64);
+    // the stated domain: |coordinates| < 2^25 (cross products then stay below 2^53 and are exact)
+    let lim = (1i64 << 25) - 1;
+    let clampp = |p: (i64, i64)| (p.0.clamp(-lim, lim), p.1.clamp(-lim, lim));
+    let (a0, a1, b0, mut b1) = (clampp(a0), clampp(a1), clampp(b0), clampp(b1));
+    if b1 == b0 {
+        b1.1 -= 1;
+    }
     let same_op = rng.below(4) == 0;
     let subj1 = rng.below(2) == 0;
     PairCase { s1: (f(a0), f(a1)), s2: (f(b0), f(b1)), subj1, subj2: if same_op { subj1 } else { !subj1 }, in_out1: rng.below(2) == 0, in_out2: rng.below(2) == 0, f32_run: false }
